@@ -922,6 +922,10 @@ def already_computed(name, dag, nodes: dict[str, Any]) -> bool:
     for output in dag.successors(name):
         target = nodes[output].get("target", None)
         if target is not None:
+            if not isinstance(target, LazyZarrArray):
+                # an existing array supplied by the user (e.g. a store target) may already
+                # hold every chunk without having been written by this computation
+                return False
             try:
                 target = open_if_lazy_zarr_array(target)
                 if not hasattr(target, "nchunks_initialized"):
